@@ -333,14 +333,20 @@ def kani_crate(crate, prop, tier, scratch, only=None):
     os.makedirs(vk, exist_ok=True)
     selected = []
     metas = {}
-    for srcfile, hfile, modname in cfg['modules']:
+    for mod in cfg['modules']:
+        srcfile, hfile, modname = mod[0], mod[1], mod[2]
         hp = os.path.join(VERIF, 'kani', crate, hfile)
+        if not os.path.exists(hp):
+            hp = os.path.join(VERIF, 'kani', 'common', hfile)
         with open(hp, encoding='utf-8') as f:
             text = f.read()
+        for k, v in (mod[3] if len(mod) > 3 else {}).items():
+            text = text.replace('@%s@' % k, str(v))
         for k, v in subst.items():
             text = text.replace('@%s@' % k, str(v))
         text = expand_steps(text, tier, subst)
-        gen_path = os.path.join(vk, hfile)
+        gen_name = '%s__%s' % (srcfile.replace('/', '_').replace('.rs', ''), hfile)
+        gen_path = os.path.join(vk, gen_name)
         with open(gen_path, 'w', encoding='utf-8') as f:
             f.write(text)
         target = os.path.join(ws, crate, srcfile)
@@ -349,7 +355,7 @@ def kani_crate(crate, prop, tier, scratch, only=None):
             res['hard'].append(dict(kind='weave', msg='source file missing: %s/%s' % (crate, srcfile)))
             return res
         with open(target, 'a', encoding='utf-8') as f:
-            f.write('\n#[cfg(kani)]\nmod %s {\n    #![allow(unused, dead_code)]\n    use super::*;\n    include!(concat!(env!("CARGO_MANIFEST_DIR"), "/verif_kani/%s"));\n}\n' % (modname, hfile))
+            f.write('\n#[cfg(kani)]\nmod %s {\n    #![allow(unused, dead_code)]\n    use super::*;\n    include!(concat!(env!("CARGO_MANIFEST_DIR"), "/verif_kani/%s"));\n}\n' % (modname, gen_name))
         modpath = cfg['modpath'](srcfile)
         for h in parse_harness_file(gen_path):
             if prop not in h['props']:
@@ -361,7 +367,9 @@ def kani_crate(crate, prop, tier, scratch, only=None):
             full = '%s::%s::%s' % (modpath, modname, h['name']) if modpath else '%s::%s' % (modname, h['name'])
             if only and h['name'] not in only:
                 continue
+            h = dict(h)
             h['full'] = full
+            h['file'] = gen_name
             h['srcfile'] = '%s/%s' % (crate, srcfile)
             selected.append(h)
             metas[full] = h
